@@ -2,6 +2,7 @@ package compaction
 
 import (
 	"fmt"
+	"github.com/KevoDB/kevo/pkg/verifhook"
 	"os"
 	"sync"
 )
@@ -78,6 +79,8 @@ func (f *DefaultFileTracker) CleanupObsoleteFiles() error {
 			continue
 		}
 
+		verifhook.At("cmp.input.delete.pre")
+
 		// Try to delete the file
 		if err := os.Remove(path); err != nil {
 			if !os.IsNotExist(err) {
@@ -88,6 +91,7 @@ func (f *DefaultFileTracker) CleanupObsoleteFiles() error {
 		} else {
 			// Successfully deleted, remove from tracking
 			delete(f.obsoleteFiles, path)
+			verifhook.At("cmp.input.deleted")
 		}
 	}
 
